@@ -11,7 +11,7 @@ FirstBad(seq) == IF \E i \in DOMAIN seq : seq[i] \notin Soft
                  ELSE IF \E i \in DOMAIN seq : seq[i] # "ok" THEN seq[CHOOSE i \in DOMAIN seq : seq[i] # "ok"]
                  ELSE "ok"
 BagOf(s) == [x \in Range(s) |-> Cardinality({i \in DOMAIN s : s[i] = x})]
-PidOf(kind) == IF kind = 0 THEN "" ELSE "chr"
+PidOf(kind) == IF kind = 0 THEN "" ELSE IF kind = 2 THEN "*" ELSE "chr"     \* 2: passive trace, parent not compared
 
 (* ["map", loc, kind, G, r2p (i = -1..len), p2r (p = -1..G)] *)
 VMap(ev) ==
@@ -69,7 +69,14 @@ VRel(ev) == FirstBad(<<VRelOne(ev[2], ev[3], ev[5], TRUE), VRelOne(ev[2], ev[3],
 VCert(ev) == Ok({ev[4][i] : i \in DOMAIN ev[4]} = LocsGK(ev[2], ev[3]) /\ Len(ev[4]) = Cardinality(LocsGK(ev[2], ev[3])),
                 "input-space-complete")
 
-Verdict(ev) == CASE ev[1] = "map" -> VMap(ev) [] ev[1] = "sub" -> VSub(ev) [] ev[1] = "rel" -> VRel(ev)
+(* single calls recorded passively from the repository's own tests: ["r2p1", loc, i, outcome] / ["p2r1", loc, p, outcome] *)
+VR2P1(ev) == LET l == ev[2] i == ev[3] o == ev[4] IN
+  IF ~Directional(St(l)) THEN Ok(Rejected(o), "rel-to-parent")
+  ELSE IF 0 <= i /\ i < LenLoc(l) THEN Ok(IsVal(o) /\ o[2] = Bases(l)[i + 1], "rel-to-parent") ELSE Ok(Rejected(o), "rel-to-parent")
+VP2R1(ev) == LET l == ev[2] p == ev[3] o == ev[4] IN
+  IF ~Directional(St(l)) THEN "ok"
+  ELSE IF p \in PosSet(l) THEN Ok(IsVal(o) /\ o[2] \in Par2RelSet(l, p), "parent-to-rel") ELSE Ok(Rejected(o), "parent-to-rel")
+Verdict(ev) == CASE ev[1] = "r2p1" -> VR2P1(ev) [] ev[1] = "p2r1" -> VP2R1(ev) [] ev[1] = "map" -> VMap(ev) [] ev[1] = "sub" -> VSub(ev) [] ev[1] = "rel" -> VRel(ev)
                  [] ev[1] = "cert" -> VCert(ev) [] OTHER -> "unknown-op"
 Bad == {i \in DOMAIN Trace : Verdict(Trace[i]) # "ok"}
 ASSUME \A i \in Bad : PrintT(<<"BAD", i, Verdict(Trace[i])>>)
